@@ -14,8 +14,14 @@ def corpus():
 
 
 def generate(rng, tier):
-    for _ in range(120 if tier == 'quick' else 12000):
-        yield R.gen_case(rng, tier)
+    for k in range(120 if tier == 'quick' else 12000):
+        if k % 6 == 0:
+            # claim/publish protocol under stress: several writers on a small ring that wraps several times, frequent
+            # switches (publishes complete in a different order than the claims, bitmap words are reused lap after lap)
+            yield R.gen_case(rng, tier, prod='multi', n=rng.choice([2, 4, 4, 8, 16]), laps=rng.choice([3, 4, 6]),
+                             stick=rng.choice([0, 64, 128]), zero_prob=0.0)
+        else:
+            yield R.gen_case(rng, tier)
 
 
 def signatures(case, lines):
